@@ -153,6 +153,7 @@ type leaf struct {
 type flattener struct {
 	info   *types.Info
 	params map[*types.Var]bool
+	alias  map[*types.Var]*types.Var // parameter of an inlined predicate helper -> the parameter it stands for
 	leaves []leaf
 	err    error
 	errPos token.Pos
@@ -198,6 +199,9 @@ func (f *flattener) paramOf(e ast.Expr) *types.Var {
 	v, _ := f.info.Uses[id].(*types.Var)
 	if v != nil && f.params[v] {
 		return v
+	}
+	if v != nil && f.alias[v] != nil {
+		return f.alias[v]
 	}
 	return nil
 }
@@ -481,8 +485,41 @@ func (f *flattener) split(cond ast.Expr, cons pathCons) (ts, fs []pathCons) {
 			return feas([]pathCons{tc}), feas([]pathCons{fc})
 		}
 	}
+	// a predicate helper of the same package applied to a parameter: `func isX(r rune) bool { return <condition on r> }`
+	// is the condition itself, with the helper's parameter standing for the argument
+	if call, ok := cond.(*ast.CallExpr); ok && len(call.Args) == 1 {
+		if arg := f.paramOf(call.Args[0]); arg != nil {
+			if fo, ok := f.info.Uses[calleeIdent(call.Fun)].(*types.Func); ok {
+				if hd := predicateDecls[fo]; hd != nil && hd.Type.Params != nil && len(hd.Type.Params.List) == 1 && len(hd.Type.Params.List[0].Names) == 1 && len(hd.Body.List) == 1 {
+					if ret, ok := hd.Body.List[0].(*ast.ReturnStmt); ok && len(ret.Results) == 1 {
+						hp, _ := f.info.Defs[hd.Type.Params.List[0].Names[0]].(*types.Var)
+						if hp != nil {
+							if f.alias == nil {
+								f.alias = map[*types.Var]*types.Var{}
+							}
+							f.alias[hp] = arg
+							return f.split(ret.Results[0], cons)
+						}
+					}
+				}
+			}
+		}
+	}
 	f.fail(cond.Pos(), "condition not understood: %s", types.ExprString(cond))
 	return nil, nil
+}
+
+// predicateDecls: the declarations of the module's single-parameter bool functions (filled when the packages are loaded).
+var predicateDecls = map[*types.Func]*ast.FuncDecl{}
+
+func calleeIdent(e ast.Expr) *ast.Ident {
+	switch x := ast.Unparen(e).(type) {
+	case *ast.Ident:
+		return x
+	case *ast.SelectorExpr:
+		return x.Sel
+	}
+	return nil
 }
 
 func flipOp(op token.Token) token.Token {
